@@ -582,13 +582,21 @@ class ReparameterizedTimeTreeModel(TimeTreeModel, CallableModel):
             self._internal_heights.tensor, self._heights
         )
 
+    def _update_transform(self) -> None:
+        # rebuild the transform (its tensors follow sampling_times) without
+        # changing the parameterization
+        if isinstance(self.transform, DifferenceNodeHeightTransform):
+            self.transform = DifferenceNodeHeightTransform(self, self.transform.k)
+        else:
+            self.transform = GeneralNodeHeightTransform(self)
+
     def cuda(self, device: Optional[Union[int, torch.device]] = None) -> None:
         super().cuda(device)
-        self.transform = GeneralNodeHeightTransform(self)
+        self._update_transform()
 
     def cpu(self) -> None:
         super().cpu()
-        self.transform = GeneralNodeHeightTransform(self)
+        self._update_transform()
 
     @staticmethod
     def json_factory(
